@@ -27,6 +27,7 @@ fn main() {
         }
         return;
     }
+    if args.len() >= 2 && args[1] == "--c20" { pv_kani::c20::debug_dump(); return; }
     if args.len() >= 3 && args[1] == "--lut" {
         pv_kani::lut_dump::dump(&args[2]);
         return;
